@@ -148,6 +148,9 @@ def run(ctx):
                 ctx.check("C07.payload", lt, None, mixed_ok, "ValueInt.__lt__: mixed int/decimal case changed",
                           expr="ValueInt mixed", site="ValueInt.__lt__: int vs decimal via asDecimal()")
 
+    from .common import numeric_order_not_textual
+    numeric_order_not_textual(ctx, model, P, "C07.payload")
+
     # ---------------------------------------------------------------- compare
     fc = model.method(P, "FuncCompare", "execute")
     from .common import decision_list
